@@ -12,6 +12,7 @@ import (
 	"pgregory.net/rapid"
 
 	"verif/lib/canon"
+	"verif/lib/ev"
 	"verif/lib/ymodel"
 	"verif/lib/yref"
 )
@@ -176,7 +177,7 @@ func LoadFetched(srcs []ymodel.Source, fetch []string, opt func(*yang.Modules)) 
 	if len(fetch) == 0 {
 		return Load(srcs, opt)
 	}
-	dir, err := os.MkdirTemp("", "verif-fetch-")
+	dir, err := ev.MkdirTemp("verif-fetch-")
 	if err != nil {
 		panic(err)
 	}
